@@ -6,6 +6,7 @@ import (
 	stdelliptic "crypto/elliptic"
 	"fmt"
 	"math/big"
+	"sync"
 
 	"github.com/wollac/iota-crypto-demo/pkg/slip10/btccurve"
 	"github.com/wollac/iota-crypto-demo/pkg/slip10/elliptic"
@@ -16,7 +17,8 @@ import (
 
 func init() {
 	fw.Register(&fw.Prop{
-		ID: "C17",
+		ID:       "C17",
+		Parallel: 4, // cases are judged on 4 goroutines per shard: the library functions are stateless, shared state inside them shows up as wrong verdicts
 		Rule: "calls Add, Double, ScalarMult, ScalarBaseMult, IsOnCurve on both copies of the curve (pkg/slip10/btccurve and the internal one behind elliptic.Secp256k1()) with points {G, [k]G small/random k, lifted random x, constructed boundary points with x or y in [n, p) or y close to 0, -P, (0,0)} in pairs {random, P=Q, P=-Q, identity operand(s)} and scalars {empty, 0, 1, 2, n-1, n, n+1, n+2, 2n, 2^256-1, k with [k] hitting +-P midway, random 1..40 bytes, 0..8 leading zero bytes}; each result compared with the affine model (identity as (0,0)); algebraic identities [a]P+[b]P=[a+b]P, [n]P=O, commutativity on the library alone. " +
 			"Non-trivial: distinct calls in a corner class (equal, opposite, identity operand, scalar = 0 mod n, scalar >= n, leading zeros, off-curve neighbours for IsOnCurve).",
 		Assumptions: []string{"math/big", "the affine model in harness/oracle/weier (self-tested: published 2G/3G, [n]G=O, agreement with crypto/elliptic on P-256)"},
@@ -44,13 +46,16 @@ func copyName(b byte) string {
 	return "pkg/slip10/elliptic/internal/btccurve"
 }
 
-var internalCurve stdelliptic.Curve
+var (
+	internalCurve stdelliptic.Curve
+	internalOnce  sync.Once
+)
 
 func curveOf(b byte) stdelliptic.Curve {
 	if b == 0 {
 		return btccurve.Secp256k1()
 	}
-	if internalCurve == nil {
+	internalOnce.Do(func() {
 		one := make([]byte, 32)
 		one[31] = 1
 		k, err := elliptic.Secp256k1().NewPrivateKey(one)
@@ -58,7 +63,7 @@ func curveOf(b byte) stdelliptic.Curve {
 			panic(err)
 		}
 		internalCurve = k.(*elliptic.PrivateKey).Curve
-	}
+	})
 	return internalCurve
 }
 
@@ -221,12 +226,17 @@ func judge(class string, key []byte, o *fw.Obs) {
 // boundaryPoints are curve points with a coordinate in [n, p) or close to 0: x = p-j for small j
 // (lifted), and y = p-j / y = j for small j (x from a cube root of j^2-7). A random point has such a
 // coordinate with probability 2^-127, so they are constructed.
-var boundary []weier.Pt
+var (
+	boundary     []weier.Pt
+	boundaryOnce sync.Once
+)
 
 func boundaryPoints() []weier.Pt {
-	if boundary != nil {
-		return boundary
-	}
+	boundaryOnce.Do(buildBoundary)
+	return boundary
+}
+
+func buildBoundary() {
 	p := mc.P
 	for j := int64(1); j < 400 && len(boundary) < 24; j++ {
 		x := new(big.Int).Sub(p, big.NewInt(j))
@@ -259,7 +269,6 @@ func boundaryPoints() []weier.Pt {
 			}
 		}
 	}
-	return boundary
 }
 
 func randPoint(g *fw.Gen) weier.Pt {
